@@ -138,10 +138,10 @@ var propSpecs = map[string]*PropSpec{
 	},
 	"C20": {
 		ID: "C20", Title: "Result attachments are confined, faithful and never lost", Exclude: cat(txLabels, jsonLabels),
-		Funcs:     cat(lockFuncs, []string{"writeResultEvent$1", "writeResultEvent", "buildResultOutputItem", "buildResultOutputItems", "newEvent", "compactEvents", "sortedTasks$1", "sortedTasks", "sortedMapKeys", "sortedKeys"}, replayFuncs),
+		Funcs:     cat(lockFuncs, []string{"captureResultEvidence", "writeResultEvent$1", "writeResultEvent", "buildResultOutputItem", "buildResultOutputItems", "newEvent", "compactEvents", "sortedTasks$1", "sortedTasks", "sortedMapKeys", "sortedKeys"}, replayFuncs),
 		Bounded:   []string{"validateResultPath"},
-		Technique: "contract-based deductive verification: the result section appends only for a live, unpruned, non-epic task and records exactly the cleaned path and the captured evidence; the replay loop prepends a result event's fields to the addressed live task and leaves every other task's results (length and elements) untouched for every event type; the output builder copies results in order; bounded stand-in for the lexical path confinement",
-		Assume:    []string{"captureResultEvidence (sha256 of the file content, mtime, git head) and deriveFileURL are assumed contracts; validateResultPath is a BOUNDED stand-in (all strings of length <= 6 over {./aergo} plus a curated list against a component-wise oracle on a real temp tree); re-emission under compaction is compactEvents' step clause [results-tail] (oldest first, every evidence field), part of this check"},
+		Technique: "contract-based deductive verification: the result section appends only for a live, unpruned, non-epic task and records exactly the cleaned path and the captured evidence; captureResultEvidence is verified on its body: the recorded hash is Sprintf(%x, Sum256(bytes read from Join(repoDir, path))), composed in the section into `the event's sha256 is the hex digest of the file at the confined path` ([hash-of-file]); the replay loop prepends a result event's fields to the addressed live task and leaves every other task's results (length and elements) untouched for every event type; the output builder copies results in order; bounded stand-in for the lexical path confinement",
+		Assume:    []string{"os.ReadFile (returns the bytes of the named file at that moment), sha256.Sum256 and fmt.Sprintf (deterministic uninterpreted functions of their operands), getGitHead and deriveFileURL are assumed contracts; that the digest really is SHA-256 and the format really is lower-case hex is library behaviour outside the proof; validateResultPath is a BOUNDED stand-in (all strings of length <= 6 over {./aergo} plus a curated list against a component-wise oracle on a real temp tree); re-emission under compaction is compactEvents' step clause [results-tail] (oldest first, every evidence field), part of this check"},
 	},
 	"C11": {
 		ID: "C11", Exclude: jsonLabels, Title: "plan creates the whole described graph or nothing",
@@ -164,8 +164,8 @@ var propSpecs = map[string]*PropSpec{
 	},
 	"C16": {
 		ID: "C16", Exclude: txLabels, Title: "--json output is a single value and tells the truth",
-		Funcs:     cat(lockFuncs, sectionFuncs, outerFuncs, commandFuncs, []string{"RunList", "RunWhere", "buildTaskListItems", "buildTaskShowOutput", "sortByCreatedAt$1", "sortByCreatedAt", "collectNonEpicTasks", "filterActiveTasks", "filterReadyTasks", "computeStatsForTasks"}, helperFuncs, readyFuncs, replayFuncs),
-		Technique: "contract-based deductive verification: ghost output counters (stdoutJSON, stdoutText) bumped by the trusted contracts of writeJSON and fmt.Print*; per command: success with --json writes exactly one JSON value and no text, failure at most one; create's reply equals the appended event",
+		Funcs:     cat(lockFuncs, sectionFuncs, outerFuncs, commandFuncs, []string{"RunList", "RunWhere", "buildTaskListItems", "buildTaskShowOutput", "sortByCreatedAt$1", "sortByCreatedAt", "collectNonEpicTasks", "filterActiveTasks", "filterReadyTasks", "computeStatsForTasks", "withCurrentState"}, helperFuncs, readyFuncs, replayFuncs),
+		Technique: "contract-based deductive verification: ghost output counters (stdoutJSON, stdoutText) bumped by the trusted contracts of writeJSON and fmt.Print*; per command: success with --json writes exactly one JSON value and no text, failure at most one; create's reply equals the appended event; when follow-up updates of `new task` committed anything, the reply's state is taken from a read of the log at its final version (ghost readVersion; defect repaired)",
 		Assume:    append([]string{"cmd/ergo wiring (cobra, exitErr, quickstart/version) is outside the package under contract", "list and where are part of this check (one JSON value, flags equal to the proved predicates)"}, lockAssume...),
 	},
 }
